@@ -1189,6 +1189,29 @@ class Interp:
         else:
             cm.cm_exit(self, is_async, None)
 
+    # ---- rename tolerance (pyvc/alpha.py) -------------------------------------------------
+    def renaming_for(self, fi):
+        if fi is None:
+            return {}
+        from . import alpha
+        return alpha.renaming(fi.module.path, fi.qualname, fi.node)
+
+    def lookup_local(self, env, name):
+        """a local of the function by the name the contract knows it under (the reference name), or by its current name"""
+        found, v = env.lookup(name)
+        if found:
+            return found, v
+        cur = self.renaming_for(env.finfo).get(name)
+        if cur is not None:
+            return env.lookup(cur)
+        return False, None
+
+    def local_name(self, env, name):
+        found, _v = env.lookup(name)
+        if found:
+            return name
+        return self.renaming_for(env.finfo).get(name, name)
+
     # ---- loops ----------------------------------------------------------------------
     def loop_spec(self, kind, s, env):
         fi = env.finfo
@@ -1214,6 +1237,12 @@ class Interp:
         for sp in specs:
             if sp.matches(ordinal, text):
                 return sp
+        ren = self.renaming_for(fi)
+        if ren:
+            from . import alpha
+            for sp in specs:
+                if sp.text is not None and alpha.rename_text(sp.text, ren) == text:
+                    return sp
         return None
 
     def st_For(self, s, env):
